@@ -1437,6 +1437,18 @@ func genIterPair(r *hx.Rand, emit func(string), st *hx.Stats) {
 		case 1:
 			x.kind, y.kind = "rut", "rut"
 			if len(x.refs) > 0 && r.Bool() {
+				// same type, another shape (plain / #relation / wildcard)
+				p := strings.SplitN(x.refs[0], ";", 3)
+				nk := hx.Pick(r, []string{"0", "1", "2"})
+				if nk == p[0] {
+					nk = strconv.Itoa((int(p[0][0]-'0') + 1) % 3)
+				}
+				rel := "-"
+				if nk == "1" {
+					rel = hx.H([]byte{'m'})
+				}
+				y.refs = append([]string{nk + ";" + p[1] + ";" + rel}, x.refs[1:]...)
+			} else if len(x.refs) > 0 && r.Bool() {
 				y.refs = append([]string{}, x.refs[1:]...)
 			} else {
 				y.refs = append(append([]string{}, x.refs...), hx.Pick(r, []string{"0;", "1;", "2;"})+v+";-")
@@ -1444,6 +1456,14 @@ func genIterPair(r *hx.Rand, emit func(string), st *hx.Stats) {
 		case 2:
 			x.kind, y.kind = "rswu", "rswu"
 			if len(x.uf) > 0 && r.Bool() {
+				// same object, another relation
+				p := strings.SplitN(x.uf[0], ";", 2)
+				nr := "-"
+				if p[1] == "-" {
+					nr = hx.H([]byte{'m'})
+				}
+				y.uf = append([]string{p[0] + ";" + nr}, x.uf[1:]...)
+			} else if len(x.uf) > 0 && r.Bool() {
 				y.uf = append([]string{}, x.uf[1:]...)
 			} else {
 				y.uf = append(append([]string{}, x.uf...), v+";-")
